@@ -2,20 +2,21 @@
 """store_seed.py <prop> <A|B> <outdir> <validation log>: keeps a confirmed seeded change as /verif/seeded/<prop>-<X>/"""
 import json, os, re, shutil, sys
 prop, X, out, log = sys.argv[1:5]
+Y = sys.argv[5] if len(sys.argv) > 5 else X   # name under which it is kept (second round: A -> C, B -> D)
 line = [l for l in open(log) if l.startswith("%s-%s " % (prop, X))][-1]
 ok = ("demo_clean=[test result: ok" in line and "build_err_hooks=0" in line and "build_err_mock=0" in line
       and "demo_mut=[test result: FAILED" in line and "FAILED" not in line.split("suite=[")[1].split("]")[0]
       and "128 passed" in line)
 if not ok:
     print("NOT CONFIRMED:", line); sys.exit(1)
-d = "/verif/seeded/%s-%s" % (prop, X)
+d = "/verif/seeded/%s-%s" % (prop, Y)
 os.makedirs(d, exist_ok=True)
 shutil.copy(os.path.join(out, X + ".patch.diff"), os.path.join(d, "patch.diff"))
 shutil.copy(os.path.join(out, X + ".demo.rs"), os.path.join(d, "demo.rs"))
 notes = open(os.path.join(out, X + ".notes.md")).read()
 open(os.path.join(d, "notes.md"), "w").write(notes)
 first = [l.strip() for l in notes.splitlines() if l.strip() and not l.startswith("#")]
-meta = {"property": prop, "id": "%s-%s" % (prop, X),
+meta = {"property": prop, "id": "%s-%s" % (prop, Y),
         "summary": (notes.splitlines()[0].lstrip("# ").strip() if notes else ""),
         "needs_to_manifest": "see notes.md (written by the independent sub-agent that produced the change)",
         "origin": "fresh sub-agent given only the property text and a scratch worktree of /repo",
